@@ -21,6 +21,8 @@ F_OPT = ("fn f(e: Option<u2>, acc: u8) -> u8 { let x: u8 = match e { None => 77,
          "let (hi, lo): (u8, u8) = <u16>::into(jet::multiply_8(acc, 7)); let s: u8 = jet::xor_8(lo, x); s }")
 
 
+F_PART = ("fn f(e: Either<(u8, u8), u16>, acc: u8) -> u8 { match e { Left(p: (u8, u8)) => { let (x, y): (u8, u8) = p; jet::xor_8(jet::left_rotate_8(1, acc), y) }, "
+          "Right(w: u16) => jet::complement_8(acc), } }")
 F_UNIT = "fn f(e: u8, acc: ()) -> () { assert!(jet::lt_8(e, 200)); }"
 
 
@@ -43,8 +45,10 @@ def build(chk):
                     continue
                 if variant == "witness-pair" and n > 32:
                     continue
-                for fname, ftext, ety in (("order", F_ORDER, ("U", 3)), ("panic", F_PANIC, ("U", 3)), ("unit", F_UNIT, ("U", 3)), ("pair", F_PAIR, ("T", (("U", 2), ("B",)))), ("opt", F_OPT, ("O", ("U", 1)))):
+                for fname, ftext, ety in (("order", F_ORDER, ("U", 3)), ("panic", F_PANIC, ("U", 3)), ("unit", F_UNIT, ("U", 3)), ("part", F_PART, ("E", ("T", (("U", 3), ("U", 3))), ("U", 4))), ("pair", F_PAIR, ("T", (("U", 2), ("B",)))), ("opt", F_OPT, ("O", ("U", 1)))):
                     if fname in ("pair", "opt") and (n > 16 or variant != "literal"):
+                        continue
+                    if fname == "part" and (n > 16 or variant not in ("literal", "witness")):
                         continue
                     if fname in ("panic", "unit") and n > 32:
                         continue
